@@ -129,6 +129,26 @@ DESC = {
     "C04/r3m1": ("SubtrajectoryReplayBuffer: current_len = max(current_len, insert_idx) after the modulo (freezes one short after the first wrap)", "wrapped ring and a window reaching the last slot"),
     "C04/r3m2": ("uniform subtrajectory buffer caches the start list; overwriting a start slot does not invalidate it", "sample, add first steps of a new episode over old starts, sample again"),
     "C20/m2": ("record_stat: `episode = episode or counter`", "explicit episode=0 / step=0 after the counters moved"),
+    "C01/r4m1": ("sample_trajectories clips Box actions before env.step but records the unclipped sample", "bounded continuous action space and a Gaussian sample outside the bounds"),
+    "C01/r4m2": ("train_sarsa carries next_action over the loop; no new selection after env.reset", "an episode end inside the call, reset observation different from the final one"),
+    "C05/r4m1": ("train_mrq binds update_model_based_encoder with live and target encoder transposed", "MR.Q past learning_starts: the update trains the target encoder"),
+    "C05/r4m2": ("TD7 _train_step gates the actor with `epoch % policy_delay == 1`", "policy_delay = 1: the actor is never updated"),
+    "C06/r4m1": ("soft_target_net_update written as t + tau*(p - t)", "tau = 1 with target leaves of other magnitude: no longer an exact copy"),
+    "C06/r4m2": ("train_mrq: epoch = max(0, global_step + 1 - learning_starts)", "a continued run (global_step >= learning_starts) or learning_starts = 0"),
+    "C09/r4m1": ("train_uts derives the backbone seed from hash() of a string", "two interpreter processes with different hash salts"),
+    "C09/r4m2": ("train_pets timing code reuses the loop variable t (perf_counter reading)", "logger + episode statistics: 'return' is logged at a clock-derived step"),
+    "C10/r4m1": ("sample_target_actions: `if noise_clip:` skips the clip for noise_clip = 0", "noise_clip == 0"),
+    "C10/r4m2": ("mpc_action pads the shifted plan with zeros instead of avg_act", "action box excluding 0, second planning call of an episode"),
+    "C11/r4m1": ("DDQN / Nature-DQN target sync dedented out of the warm-up gate", "a passed q_target_net differing from q_net, sync step inside the warm-up"),
+    "C11/r4m2": ("train_uts passes learning_starts = max(0, exploring_starts - global_step)", "two backbone calls starting before the warm-up is over"),
+    "C12/r4m1": ("deterministic_policy_gradient_loss evaluates only q.q1 of a clipped double-Q critic", "double-Q critic with Q2 < Q1 on some sample"),
+    "C12/r4m2": ("actor-critic weight written r + gamma*(v' - v)", "gamma != 1"),
+    "C13/r4m1": ("train_ddqn_per: warm_up = step <= learning_starts", "learning_starts > 0 inside the epsilon decay, non-exploring roll at that step"),
+    "C13/r4m2": ("SoftmaxPolicy.entropy as -sum p log p", "logit spread beyond the float32 exp underflow (NaN)"),
+    "C17/r4m1": ("evaluate_plans evaluates the reward once on the particle-mean trajectory", "reward not affine in the observation, > 1 particle"),
+    "C17/r4m2": ("train_ensemble rounds the batch count up and refills the last batch from the row's start", "bootstrap size not a multiple of batch_size"),
+    "C19/r4m1": ("OrbaxCheckpointer drops the epoch from the directory name and saves with force=True", "one logger over two training calls: a step value at which a checkpoint exists comes back"),
+    "C19/r4m2": ("MultiTaskReplayBuffer.__getstate__ drops sampled_task_idx", "prioritized multi-task buffer pickled between sample_batch and update_priority"),
 }
 
 
